@@ -82,8 +82,9 @@ class Capture:
 
     TOOL = 3
 
-    def __init__(self, w1, fail_at=None, deep=False):
+    def __init__(self, w1, fail_at=None, deep=False, fault_kind=0):
         self.w1 = w1
+        self.fault_kind = fault_kind  # which kind of exception the failpoint raises (vf.failpoints.KINDS)
         self.fail_at = fail_at
         self.deep = deep  # True: the fault is raised by the back-end's solve() *inside* linear_solve
         # "post": linear solve #fail_at succeeds; the next inner step that evaluates the cost functional
@@ -114,8 +115,9 @@ class Capture:
                 cap.post_armed = True
                 return out
             if cap.fail_at is not None and idx == cap.fail_at:
-                from vf.failpoints import InjectedFault
+                from vf.failpoints import KINDS, kind
 
+                InjectedFault = kind(cap.fault_kind)
                 if not cap.deep:
                     cap.linear_calls.append({"index": idx, "raised": True, "depth": "boundary"})
                     raise InjectedFault(f"injected failure of linear solve #{idx}")
@@ -152,7 +154,7 @@ class Capture:
                     out = orig_ls(matrix, rhs, *a, **k)
                     cap.linear_calls.append({"index": idx, "raised": False, "depth": "deep-not-fired"})
                     return out
-                except InjectedFault:
+                except KINDS:
                     cap.linear_calls.append({"index": idx, "raised": True, "depth": "deep"})
                     raise
                 finally:
@@ -217,8 +219,9 @@ class Capture:
 
         def l1_dissipation(*a, **k):
             if cap.post_armed and not cap.post_fired:
-                from vf.failpoints import InjectedFault
+                from vf.failpoints import kind
 
+                InjectedFault = kind(cap.fault_kind)
                 cap.post_fired = True
                 raise InjectedFault(f"injected failure of the cost evaluation after linear solve #{cap.fail_at}")
             return orig_l1(*a, **k)
